@@ -7,7 +7,7 @@ from dataflows.processors.load import load as Load
 
 PROP = 'C13'
 PROPS_V = 'Props/C13.v'
-COQ_IMPORTS = ['Base.Str', 'Base.Value', 'Proc.RowOps', 'Proc.Fields', 'Proc.Load', 'IO.Csv']
+COQ_IMPORTS = ['Base.Str', 'Base.Value', 'Proc.RowOps', 'Proc.Fields', 'Proc.Load', 'IO.Csv', 'IO.LoadCsv_proofs']
 RULE = ('cases = (a) header lists with duplicates (case variants) through rename_duplicate_headers, (b) row lists through '
         'the stripper/limiter/stringer wrappers, (c) generated CSV files (quotes, delimiters, LF inside cells, unicode, '
         'numeric-looking and empty cells, duplicate headers) loaded with infer/cast strategies, strip, limit_rows, '
@@ -380,9 +380,9 @@ def coq_term(case, out):
         fields = cstrs(out['fields'])
         got = crows([dict((a, '' if b is None else (b if isinstance(b, str) else str(b))) for a, b in r.items()) for r in rows_dec(out['rows'])])
         lim = 'None' if not o['limit_rows'] else '(Some %s)' % cZ(o['limit_rows'])
-        return ('match read_csv %s with Ok (h :: recs) => rows_eqb (wrap (fun x => x) %s %s '
-                '(map (fun rc => combine %s (map VStr rc)) recs)) %s | _ => false end') % (
-            cstr(out['text']), cbool(o['strip']), lim, fields, got)
+        # load_csv is the definition the file-level theorem C13_file_rows_faithful speaks about
+        return ('match load_csv %s %s with Ok rows => rows_eqb (wrap (fun x => x) %s %s rows) %s | Err _ => false end') % (
+            fields, cstr(out['text']), cbool(o['strip']), lim, got)
     return None
 
 
